@@ -145,4 +145,13 @@ theorem tarOneVet_nil (fs : FS) (root : P) (mask : Nat) (e : Entry) : (tarOneVet
   unfold tarOneVet tarOneV tarOneR tarOneG
   cases hk : e.kind <;> (simp [lexV]; try (split <;> (try rfl) <;> (split <;> (try rfl) <;> simp_all)))
 
+/-- `extractFile` with the result of the deferred `Close` dropped (`_ = file.Close()`), or reported only together with
+    another error (`closeErr != nil && err != nil`): either way the result is the copy error alone -/
+def extractFileNoClose (flt : Faults) (fs1 : FS) (path : P) (mode : Nat) (payload : List Nat) (readErr : Bool) : FS × Bool :=
+  match openTruncR fs1 path mode with
+  | none => (fs1, false)
+  | some (fs2, fd) =>
+    let c := ioCopy payload readErr flt.writeLimit
+    (writeFd fs2 fd c.1, !c.2)
+
 end Ex
